@@ -5,6 +5,8 @@ pub mod c02;
 pub mod c03;
 pub mod c04;
 pub mod c05;
+pub mod c06;
+pub mod c06_kill;
 pub mod c07;
 pub mod c09;
 pub mod c10;
@@ -22,6 +24,7 @@ pub fn plan_for(id: &str) -> Option<Plan> {
         "C03" => c03::plan(),
         "C04" => c04::plan(),
         "C05" => c05::plan(),
+        "C06" => c06::plan(),
         "C07" => c07::plan(),
         "C09" => c09::plan(),
         "C10" => c10::plan(),
@@ -39,6 +42,7 @@ pub fn shard_for(id: &str, ctx: &Ctx) -> Option<Shard> {
         "C03" => c03::shard(ctx),
         "C04" => c04::shard(ctx),
         "C05" => c05::shard(ctx),
+        "C06" => c06::shard(ctx),
         "C07" => c07::shard(ctx),
         "C09" => c09::shard(ctx),
         "C10" => c10::shard(ctx),
